@@ -38,6 +38,20 @@ Proof. intros n i r H V. exact (inside_complete n i r H V). Qed.
 Theorem chain_stops : forall n r, xstop r -> exists e, postfix_alt (fun y j => expr_gram (S (S n)) y j) r = Err e.
 Proof. exact postfix_stops. Qed.
 
+(* block comments hide whatever they contain: a body without the two bytes */ -- any delimiters,
+   quotes, stars, slashes and line breaks in it, bodies ending in runs of stars included -- is taken
+   exactly up to its terminator (so a group scanner steps over it as one item, XI_cmt) *)
+Theorem comments_hide_delimiters : forall body rest : bytes, no_close_rc body = true ->
+  rust_comment (b "/*" ++ body ++ b "*/" ++ rest) = Ok body rest.
+Proof. exact rust_comment_skips. Qed.
+
+(* string literals too: a literal without backslashes runs to the next double quote, whatever
+   delimiters and comment openers it holds (escapes: derivations evaluate quoted_string; see the grid) *)
+Theorem plain_string_literal : forall body rest : bytes, Forall (fun c => plain_str c = true) body ->
+  utf8_valid (34%N :: body ++ [34%N]) = true ->
+  quoted_string (34%N :: body ++ 34%N :: rest) = Ok (34%N :: body ++ [34%N]) rest.
+Proof. exact quoted_string_plain. Qed.
+
 (* together with the template level: `@` followed by a derivable expression is one Expr node holding exactly that text *)
 Theorem at_expression_complete : forall n ln m i r, XE n i r -> dispatch (64%N :: i) = Ok [] i ->
   texpr_gram (expr_gram n) ln (S m) TE (64%N :: i) = Ok (TExpr (slice i r)) r.
@@ -107,6 +121,8 @@ Redirect "assumptions/C05.expression_complete" Print Assumptions expression_comp
 Redirect "assumptions/C05.expression_complete_any_fuel" Print Assumptions expression_complete_any_fuel.
 Redirect "assumptions/C05.paren_scan_complete" Print Assumptions paren_scan_complete.
 Redirect "assumptions/C05.chain_stops" Print Assumptions chain_stops.
+Redirect "assumptions/C05.comments_hide_delimiters" Print Assumptions comments_hide_delimiters.
+Redirect "assumptions/C05.plain_string_literal" Print Assumptions plain_string_literal.
 Redirect "assumptions/C05.at_expression_complete" Print Assumptions at_expression_complete.
 Redirect "assumptions/C05.expression_follower_grid" Print Assumptions expression_follower_grid.
 Redirect "assumptions/C05.paren_expression" Print Assumptions paren_expression.
